@@ -2,7 +2,7 @@
 //
 // Engine E2 (enumx): the full product
 //
-//	client-rate rotation (5 quick / 8 thorough) × sampler case (18) × path (19)
+//	client-rate rotation (5 quick / 8 thorough) × sampler case (20, two of them "rate 0 by configuration") × path (19)
 //
 // is executed on the REAL collect.InMemCollector (fix/collector, handler mode, fake clock, capturing
 // transmission). Every cell builds a fresh collector, runs one short history and evaluates the oracle on every
@@ -101,6 +101,10 @@ type samplerCase struct {
 	// rules: the dynsampler sits behind rule 0 of a rules-based sampler
 	downstream bool
 	key        string // dynsampler key of the test trace (discovered by the self-check)
+	// free: the configuration dictates rate 0 for the test trace (a matched rule without a rate). Whether such a
+	// trace is kept is not C04's subject and is not tabled; IF it is kept, "the trace's sampling rate, which is at
+	// least 1" makes T = 1. The cell reads the decision the collector took and judges what is forwarded.
+	free bool
 }
 
 var svcFields = []string{"svc"}
@@ -168,6 +172,13 @@ func samplerCases() []*samplerCase {
 		}},
 		{name: "windowed-throughput-loaded-15", rate: 15, draw: true, load: 15, cfg: func() any {
 			return &config.WindowedThroughputSamplerConfig{GoalThroughputPerSec: 100, FieldList: svcFields, UpdateFrequency: never}
+		}},
+		{name: "rules-match-rate-0-floor", rate: 1, free: true, cfg: func() any {
+			return &config.RulesBasedSamplerConfig{Rules: []*config.RulesBasedSamplerRule{
+				{Name: "svc-a", SampleRate: 0, Conditions: condSvc()}, {Name: "rest", SampleRate: 2}}}
+		}},
+		{name: "rules-catchall-rate-unset-floor", rate: 1, free: true, cfg: func() any {
+			return &config.RulesBasedSamplerConfig{Rules: []*config.RulesBasedSamplerRule{{Name: "everything"}}}
 		}},
 		// a loaded rate of 0 (what a dynsampler reports for "no data") must be floored as well
 		{name: "dynamic-loaded-0-floored-to-1", rate: 1, load: -1, cfg: func() any {
@@ -282,6 +293,9 @@ func selfCheck(r *ev.Run, cases []*samplerCase, keptID, droppedID string) {
 	}
 	conf := &config.MockConfig{TraceIdFieldNames: []string{"trace.trace_id"}, ParentIdFieldNames: []string{"trace.parent_id"}}
 	for _, sc := range cases {
+		if sc.free {
+			continue
+		}
 		// 1. discover the key
 		fac := newFactory(sc.cfg())
 		_, _, _, key := fac.GetSamplerImplementationForKey("ds").GetSampleRate(probeTrace(keptID, conf, false))
@@ -423,6 +437,10 @@ func (c *cell) run(keptID, droppedID string) {
 
 	T := sc.rate
 	if pc.drop {
+		if sc.free {
+			c.r.Add("dropped_path_not_applicable", 1)
+			return
+		}
 		T = 0
 	}
 	// ---- sampler decision
@@ -470,7 +488,18 @@ func (c *cell) run(keptID, droppedID string) {
 			return
 		}
 		d := f.Remembered(c.id)
-		if d.Kept == pc.drop || d.Dropped() != pc.drop {
+		if sc.free {
+			if d.Kept {
+				c.r.Add("rate_0_configured_but_trace_kept", 1)
+			} else {
+				// dropped: C04 says nothing about this trace (and nothing must be forwarded for it: C02)
+				c.r.Add("rate_0_configured_and_trace_dropped", 1)
+				T = 0
+				for _, e := range c.exps {
+					e.T = 0
+				}
+			}
+		} else if d.Kept == pc.drop || d.Dropped() != pc.drop {
 			if sc.rate == 1 && pc.drop {
 				// a rate-1 sampler keeps everything: the dropped path does not exist for it
 				c.r.Add("dropped_path_not_applicable", 1)
